@@ -310,6 +310,16 @@ class C17:
             # a corpus statement (no neutral twin) that contains the construct of a listed finding
             rec.violation("MEANING-CHANGED/other/fstring-nested-spec", case, v[1])
             return
+        if not risk and v[0].startswith("MEANING-CHANGED/") and re.search(r"[ \t]+\r?\n", s):
+            # a corpus statement (no neutral twin): does the deviation vanish when no line ends in a blank?  then it is the listed
+            # stripping of trailing blanks inside multi-line string literals
+            v3 = self.judge(re.sub(r"[ \t]+(\r?\n)", r"\1", s))
+            if v3[0] == "ok":
+                rec.violation(v[0] + "/string-trailing-blank", case, v[1])
+                return
+        if v[0] == "MEANING-CHANGED/other" and str((v[1] or {}).get("path", "")).endswith("JoinedStr.values") and re.search(r"(?i)\bf[r]?['\"][^\n]*\{[ \t]+\{", s):
+            rec.violation("MEANING-CHANGED/other/fstring-field-starting-with-a-brace", case, v[1])
+            return
         if v[0] == "MEANING-CHANGED/other" and str((v[1] or {}).get("path", "")).endswith("JoinedStr.values") and re.search(r"\{[^{}]*(\s=\s*|=\s+)[}!:]", s):
             rec.violation("MEANING-CHANGED/other/fstring-self-documenting-whitespace", case, v[1])
             return
@@ -360,7 +370,7 @@ class C17:
         rng = random.Random(f"{sh['seed']}/C17/{sh['index']}")
         # directed: the property's own example and the pilot's classes
         if sh["index"] == 0:
-            for s, n, risk in [("x = '''a  \nb'''\n", "x = '''a\nb'''\n", "string-trailing-blank"), ("scp a b:c\n", "scp a bc\n", "colon-word"), ("echo a,b\n", "echo ab\n", "comma-word"), ("echo x==y\n", "echo xy\n", "operator-word"), ("with! ctxm:\n    raw  block  text\n", "with! ctxm:\n    raw block text\n", "block-macro-blank-run"), ("m = f'X{x  =}Y'\n", None, None),
+            for s, n, risk in [("x = '''a  \nb'''\n", "x = '''a\nb'''\n", "string-trailing-blank"), ("scp a b:c\n", "scp a bc\n", "colon-word"), ("echo a,b\n", "echo ab\n", "comma-word"), ("echo x==y\n", "echo xy\n", "operator-word"), ("with! ctxm:\n    raw  block  text\n", "with! ctxm:\n    raw block text\n", "block-macro-blank-run"), ("m = f'X{x  =}Y'\n", None, None), ("m = f'expr={ {k: v for k, v in [(1, 2)]} }'\n", None, None),
                                ("s = 'page1\u2028page2'\n\nwith ctxm:\n        cmd0 | cmd1 -x\n", "s = 'page1-page2'\n\nwith ctxm:\n        cmd0 | cmd1 -x\n", "line-boundary-char")]:
                 self.run_case({"kind": "src", "src": s, "neutral": n, "risk": risk}, rec)
         for i in harness.budgeted(range(sh["n"]), rec):
